@@ -1345,13 +1345,68 @@ func (tg *ntarget) translate(repo string, known map[string]*ntarget) (string, er
 		// NormalizeNumber: the clause of the outer type switch (on v0) for the first parameter's Go
 		// type, the statements in front of its inner type switch (on v1), and the inner clause for
 		// the second parameter's Go type
+		// the outer switch is the first type switch on the FIRST parameter. A type switch on the
+		// second parameter in front of it (a pre-normalisation such as `case Octet: v1 = Fixnum(t1)`)
+		// is accepted when none of its clauses concerns the second type of this cell and it has no
+		// default clause: then it does not touch the operands of the cell.
 		var outer *ast.TypeSwitchStmt
+		subject := func(sw *ast.TypeSwitchStmt) string {
+			var e ast.Expr
+			switch a := sw.Assign.(type) {
+			case *ast.AssignStmt:
+				if len(a.Rhs) == 1 {
+					e = a.Rhs[0]
+				}
+			case *ast.ExprStmt:
+				e = a.X
+			}
+			if ta, ok := e.(*ast.TypeAssertExpr); ok {
+				if id, ok := ta.X.(*ast.Ident); ok {
+					return id.Name
+				}
+			}
+			return ""
+		}
+		p0, p1 := "", ""
+		if fd.Type.Params != nil {
+			var names []string
+			for _, f := range fd.Type.Params.List {
+				for _, n := range f.Names {
+					names = append(names, n.Name)
+				}
+			}
+			if len(names) >= 2 {
+				p0, p1 = names[0], names[1]
+			}
+		}
+		var preErr error
 		ast.Inspect(fd.Body, func(n ast.Node) bool {
 			if sw, ok := n.(*ast.TypeSwitchStmt); ok && outer == nil {
-				outer = sw
+				switch subject(sw) {
+				case p0:
+					outer = sw
+				case p1:
+					for _, c := range sw.Body.List {
+						cc := c.(*ast.CaseClause)
+						if cc.List == nil {
+							preErr = fmt.Errorf("%s: the type switch on %s in front of the dispatch of NormalizeNumber has a default clause: not understood", tg.file, p1)
+						}
+						for _, e := range cc.List {
+							if selName(e) == tg.goTypes[1] {
+								preErr = fmt.Errorf("%s: the type switch on %s in front of the dispatch of NormalizeNumber rewrites a %s: not understood", tg.file, p1, tg.goTypes[1])
+							}
+						}
+					}
+					return false
+				default:
+					outer = sw
+				}
 			}
 			return outer == nil
 		})
+		if preErr != nil {
+			return "", preErr
+		}
 		clause := func(sw *ast.TypeSwitchStmt, ty string) []ast.Stmt {
 			if sw == nil {
 				return nil
